@@ -1,4 +1,4 @@
-import TexelVerif.Conc.Progress
+import TexelVerif.Conc.StepG4e
 /-! # C10 — search control always terminates with exactly one result
 
 Model: `Conc/Model.lean` (`step`), threads = protocol thread, engine thread (root communicator `r`)
@@ -76,20 +76,51 @@ theorem ack_never_dropped {r : Fin n} {s : St n} (h : Reach r s) (hr : inRound s
 
 /-! ## quiescence when the root has all acknowledgements -/
 
-/-- **Proven part.** When the root communicator has all acknowledgements (`hasStopAck()`), then on every edge
-    of the tree: no STOP is queued or about to be sent, the child is outside a round (hence so is the whole
-    tree), and no STOP_ACK is queued or about to be sent.
-    **Full statement (not yet proven):** in addition every helper has `jobId = -1`, is not inside `doSearch`,
-    and no INIT / START / REPORT_RESULT is queued or pending anywhere.  Missing: the "activity" invariant
-    (a helper is active only while the stop wave has not passed it) with the FIFO-order facts it needs. -/
-theorem quiescent_at_ack_partial {r : Fin n} {s : St n} (h : Reach r s) (hr : inRound s r = false) :
+/-- **Proven part.** When the root communicator has all acknowledgements (`hasStopAck()`) and the engine thread
+    is not inside a search (`actR`: between `sendInitSearch` and `sendStopSearch`), then
+    (1) nobody in the tree is inside a stop round;
+    (2) on every edge no STOP is queued or about to be sent and no STOP_ACK is queued or about to be sent;
+    (3) every helper is idle: `jobId = -1`, not inside `doSearch`, no START_SEARCH queued or about to be forwarded.
+    **Full statement (not yet proven):** in addition no REPORT_RESULT and no INIT_SEARCH is queued or pending
+    anywhere.  Missing: the FIFO-order invariant "in a queue no report of a child follows that child's ack"
+    (and the analogous one for INIT before STOP). -/
+theorem quiescent_at_ack_partial {r : Fin n} {s : St n} (h : Reach r s) (hr : inRound s r = false) (ha : actR s r = false) :
     (∀ v, s.alive v = true → inRound s v = false) ∧
     (∀ p c, isChild s p c = true →
-      cStop (s.q c) = 0 ∧ pStop (s.out p) c = 0 ∧ cAck (s.q p) c = 0 ∧ pAck (s.out c) p c = 0) := by
+      cStop (s.q c) = 0 ∧ pStop (s.out p) c = 0 ∧ cAck (s.q p) c = 0 ∧ pAck (s.out c) p c = 0) ∧
+    (∀ v, s.alive v = true → v ≠ r →
+      s.jobId v = none ∧ isSearch (s.pc v) = false ∧ hasStart (s.q v) = false ∧ hasPStart (s.out v) = false) := by
   have h1 := reach_G1 h
-  refine ⟨h1.quiescent hr, fun p c hc => ?_⟩
-  have := h1.quiescent_edge hr hc
-  exact ⟨this.1, this.2.1, this.2.2.2.1, this.2.2.2.2⟩
+  refine ⟨h1.quiescent hr, fun p c hc => ?_, fun v hv hvr => ?_⟩
+  · have := h1.quiescent_edge hr hc
+    exact ⟨this.1, this.2.1, this.2.2.2.1, this.2.2.2.2⟩
+  · have := (reach_G4 h).idle h1 hr ha v hv hvr
+    unfold act at this
+    simp only [Bool.or_eq_false_iff] at this
+    refine ⟨?_, this.1.1.2, this.1.2, this.2⟩
+    cases hj : s.jobId v
+    · rfl
+    · rw [hj] at this; simp at this
+
+/-- The engine thread in its main loop (where options are applied and from where threads are created and
+    destroyed) is neither in a round nor searching, so all helpers are idle there. -/
+theorem helpers_idle_in_main_loop {r : Fin n} {s : St n} (h : Reach r s) (hm : mainLoopPc (s.pc r) = true ∨ s.pc r = .epost ∨ s.pc r = .eend)
+    (v : Fin n) (hv : s.alive v = true) (hvr : v ≠ r) :
+    s.jobId v = none ∧ isSearch (s.pc v) = false ∧ hasStart (s.q v) = false ∧ hasPStart (s.out v) = false := by
+  have h1 := reach_G1 h
+  have hnr : inRound s r = false := by
+    apply h1.root_not_inRound
+    rcases hm with e | e | e
+    · cases hp : s.pc r <;> simp [hp, mainLoopPc] at e <;> rfl
+    · rw [e]; rfl
+    · rw [e]; rfl
+  have hna : actR s r = false := by
+    unfold actR
+    rcases hm with e | e | e
+    · cases hp : s.pc r <;> simp [hp, mainLoopPc] at e <;> rfl
+    · rw [e]; rfl
+    · rw [e]; rfl
+  exact (quiescent_at_ack_partial h hnr hna).2.2 v hv hvr
 
 /-- A new START reaches a helper only outside a stop round, so the purge in `doSendStartSearch` never removes
     a STOP that somebody is counting on. -/
